@@ -58,6 +58,11 @@ COMPILER_INTERNALS_OR_DISALLOWED = {
     "rcontext",
 }
 
+# The render function's own ``target_language`` variable: as a
+# ``Builtin`` node the name is not rewritten into a lookup of the
+# template variable when it appears in expression code.
+TARGET_LANGUAGE = Builtin("target_language")
+
 RE_MANGLE = re.compile(r'[^\w_]')
 RE_NAME = re.compile('^%s$' % NAME)
 
@@ -415,6 +420,7 @@ class Interpolator:
                 target = template(
                     "translate(msgid, domain=__i18n_domain, context=__i18n_context, target_language=target_language)",  # noqa:  E501 line too long
                     msgid=target,
+                    target_language=TARGET_LANGUAGE,
                     mode="eval",
                 )
         else:
@@ -442,6 +448,7 @@ class Interpolator:
                     mapping=ast.Dict(
                         keys=keys,
                         values=values),
+                    target_language=TARGET_LANGUAGE,
                     mode="eval")
             else:
                 nodes = [
@@ -591,6 +598,7 @@ class ExpressionEngine:
             target,
             default=self._default,
             default_marker=self._default_marker,
+            target_language=TARGET_LANGUAGE,
         )
 
     def _convert_text(self, target, char_escape):
@@ -952,7 +960,8 @@ class ExpressionTransform:
         else:
             msgid = target
         return self._translate(node.node, target) + \
-            emit_translate(target, msgid, default=target)
+            emit_translate(target, msgid, default=target,
+                           target_language=TARGET_LANGUAGE)
 
     def visit_Static(self, node, target):
         return [ast.Assign(targets=[target], value=node)]
